@@ -38,17 +38,17 @@ GEN = {
     "C01": ("c01", "", "Gvlean.Props.C01", ["Props.c01", "Props.c01_shape", "Props.c01_nan", "Props.c01_guard"], ["spec", "gen_fail", "build"],
             "one struct per (gt|gte|lt|lte, documented numeric type incl. named, random representable bound incl. type extremes and 2^53+1), top level or nested 1-2 levels; values = type lattice (min, min+1, -1, 0, 1, max-1, max / float: +-0, denormal, +-max, +-Inf, quiet/signalling/negative NaN) plus N-1, N, N+1 (N +- 1ulp for floats)"),
     "C02": ("c02", "", "Gvlean.Props.C02", ["Props.c02", "Props.c02_check", "Props.c02_named", "Props.c02_switch_underlying"], ["spec", "gen_fail", "build"],
-            "one struct per documented field type of required (all basic kinds, byte, rune, complex, pointer, any, error, interface{}, func, slices, arrays, map, chan) and a named type over each; values: zero, non-zero, nil vs empty non-nil, -0.0, NaN, 0+0i, buffered/empty channels"),
+            "one struct per documented field type of required (all basic kinds, byte, rune, complex, pointer, any, error, interface{}, func, slices, arrays, map, chan) and a named type over each; values: zero, non-zero, nil vs empty non-nil, -0.0, NaN, 0+0i, buffered/empty channels; every type also declared through an alias (type A = T); markers on nested structs with an unmarked middle level and marked leaves below (compared as multisets of (rule, value))"),
     "C03": ("c03", "", "Gvlean.Props.C03", ["Props.c03", "Props.c03_meaning", "Props.c03_ascii", "Props.c03_invalid_bytes"], ["spec", "gen_fail", "build"],
-            "minlength/maxlength/length on string fields with N in {0,1,2,3,5,10}; values: strings of N-1, N, N+1 code points made of 1-, 2-, 3-, 4-byte runes and invalid bytes, mixed tails, byte-length-N strings with fewer code points"),
+            "minlength/maxlength/length on string fields with N in {0,1,2,3,5,10}; values: strings of N-1, N, N+1 code points made of 1-, 2-, 3-, 4-byte runes and invalid bytes, mixed tails, byte-length-N strings with fewer code points; string fields also declared through an alias and a named type"),
     "C04": ("c04", "", "Gvlean.Props.C04", ["Props.c04", "Props.c04_meaning", "Props.c04_guard"], ["spec", "gen_fail", "build"],
-            "minitems/maxitems on []string, []int, []byte (ASCII and multi-byte content), [3]int, [1]string, map[string]int, chan int and named types over them; lengths 0..N+2, nil vs empty, channels with k buffered elements"),
+            "minitems/maxitems on []string, []int, []byte (ASCII and multi-byte content), [3]int, [1]string, map[string]int, chan int and named types over them; lengths 0..N+2, nil vs empty, channels with k buffered elements; every collection type also declared through an alias"),
     "C05": ("c05", "", "Gvlean.Props.C05", ["Props.c05", "Props.c05_zero_not_special", "Props.c05_item_forms", "Props.c05_numeric"], ["spec", "gen_fail", "build"],
             "enum lists of 1..8 items (duplicates, padded items, non-ASCII) on string, every integer kind, float32/64 and named types; values: every item, case changes, prefixes, +-1, padded forms, the zero value"),
     "C06": ("c06", "", "Gvlean.Props.C06", ["Props.c06", "Props.c06_languages", "Props.c06_alpha", "Props.c06_numeric"], ["spec", "gen_fail", "build"],
-            "the seven format markers on string fields, top level and nested; values: member / non-member corpora per language (incl. the seeded-change triggers: DEL in local part, U+0161, '{' host, control byte in UUID, Latin-1 bytes)"),
+            "the seven format markers on string fields, top level and nested; values: member / non-member corpora per language (incl. the seeded-change triggers: DEL in local part, U+0161, '{' host, control byte in UUID, Latin-1 bytes); fields also declared through an alias of string"),
     "C07": ("c07", "is", "Gvlean.Props.C07", ["Props.c07", "Props.c07_nil_iff", "Props.c07_nil_receiver", "Props.c07_is"], ["spec", "is", "nilrecv", "gen_fail", "build"],
-            "random Clean structs: 1..8 fields, 0..4 documented markers per field from every family, optional nesting to depth 2, optional struct-level markers, 1-3 structs per package sharing field names; values: base vector, every candidate of every leaf one at a time, 12 random vectors; errors.Is against every exported Err* (plain and %w-wrapped), nil receiver"),
+            "random Clean structs: 1..8 fields, 0..4 documented markers per field from every family, optional nesting to depth 2, optional struct-level markers, 1-3 structs per package sharing field names; values: base vector, every candidate of every leaf one at a time, 12 random vectors; errors.Is against every exported Err* (plain and %w-wrapped), nil receiver; doc comments with prose before and AFTER the markers; structs of 49/66/100 fields with more than 64 rules (one all-valid vector, one violation per field, mixed vectors)"),
     "C15": ("c07", "is,ctx", "Gvlean.Props.C15", ["Props.c15_cancelled", "Props.c15_already_done", "Props.c15_undisturbed", "Props.c15_wrappers"], ["ctx", "wrappers", "unknown"],
             "the random Clean structs of C07; for every value a context that turns done at its k-th Err() call for every k from 0 to polls+1, Canceled and DeadlineExceeded; observed result and number of Err() calls compared with the contract and with the Lean model; wrappers Validate/ValidateT/ValidateContext(Background) compared with ValidateTContext"),
     "C16": ("c07", "mut,race", "Gvlean.Props.C16", ["Props.c16_write_set", "Props.c16_helpers_pure"], ["mut", "unknown"],
@@ -58,7 +58,7 @@ GEN = {
     "C19": ("all", "alloc", "Gvlean.Props.C19", ["Props.c19", "Props.c19_only_failing_branches"], ["alloc"],
             "every (non-CEL marker, documented type) scenario and the random multi-field structs; testing.AllocsPerRun(20) around Validate(), ValidateT(t) and ValidateContext(Background) for every value whose observed result is nil"),
     "C09": ("c09", "", "Gvlean.Props.C09", ["Props.c09_never_accepted", "Props.c09_coverage", "Props.c09_inapplicable", "Props.c09_every_name"], ["spec", "gen_fail", "build"],
-            "declaration shapes: struct-level vs per-field placement of the same markers on identical values, struct-level markers over fields of every type (inapplicable ones must be left unconstrained), 1..5 markers per field, up to 100 fields, fields before/after nested structs"),
+            "declaration shapes: struct-level vs per-field placement of the same markers on identical values, struct-level markers over fields of every type (inapplicable ones must be left unconstrained), 1..5 markers per field, up to 100 fields, fields before/after nested structs; markers on nested structs incl. `A, B struct{...}` declared inside another nested struct (multiset of (rule, value) against the Spec of the pushed-down declaration); prose after markers"),
 }
 
 
@@ -131,6 +131,24 @@ def _gen_prop(pid):
                                            "detail": rs["report"][-6000:]}, True)
             if not res.violations:
                 cel.race_check(res)
+            if not res.violations:
+                # the exported runtime helpers themselves, concurrently, with more than 1024 distinct CEL expressions
+                import json as _json
+                work = gen.C.scratch("gvhrace")
+                try:
+                    q = _sp.run([gen.os.path.join(gen.C.BIN, "harness"), "helpers-race", res.tier, work, gen.C.REPO], stdout=_sp.PIPE, stderr=_sp.PIPE, text=True, env=gen.C.goenv())
+                    if q.returncode != 0:
+                        raise RuntimeError("harness helpers-race failed: " + q.stderr[-2000:])
+                    hr = _json.loads(q.stdout.strip().split("\n")[-1])
+                finally:
+                    gen.shutil.rmtree(work, ignore_errors=True)
+                res.cov["distribution"]["runtime helpers raced (-race): goroutines x iterations"] = hr["goroutines"] * hr["iterations"]
+                res.cov["distribution"]["distinct CEL expressions compiled by IsValidCEL in one process"] = hr["distinct_cel_expressions"]
+                res.cov["evaluations"] += hr["goroutines"] * hr["iterations"]
+                if not hr["ok"]:
+                    res.violation("helpers-race", {"kind": "helpers-race", "what": "the exported runtime helpers (IsValidCEL with %d distinct expressions, IsValidEmail/URL/UUID/Alpha, IsNumeric) called from %d goroutines: %s" % (
+                        hr["distinct_cel_expressions"], hr["goroutines"], "the race detector reported a data race" if hr["race"] else "a wrong verdict or a crash"),
+                        "output": hr["output"][-6000:], "program": hr["program"]}, True)
         if not res.violations:
             gen.report(res, ev, broken, aspects)
     return run
@@ -141,7 +159,7 @@ def _c08(res):
     broken, model_ok = gen.prepare(res, "Gvlean.Props.C08", theorems)
     if broken is None:
         return
-    rows, _ = gen.run_harness("c08", res.tier, res.seed, "is,iface,vet")
+    rows, _ = gen.run_harness("c08", res.tier, res.seed, "is,iface,vet,together")
     ev = gen.evaluate(rows, model_ok, ["gen_fail", "build", "gofmt"])
     # model's well-formedness verdict vs the Go type checker's
     wf = gen.C.drive("modeldrv", ["wf\t" + r["decl_sexp"] for r in rows]) if model_ok and rows else [None] * len(rows)
